@@ -205,6 +205,30 @@ func TestVerifC04(t *testing.T) {
 		r.EvalN("hist:independent-values-concurrently", nG)
 	}
 
+	// (2a') the same calls from fresh goroutines at EVERY STACK DEPTH of a sweep: the stack is moved at another point
+	// inside Write / Sum / SumSM3 each time (an address of the hash's buffer kept as a number across a call goes stale)
+	{
+		msgs := [][]byte{rng.Bytes(3), rng.Bytes(55), rng.Bytes(56), rng.Bytes(63), rng.Bytes(64), rng.Bytes(119), rng.Bytes(200), rng.Bytes(1000)}
+		wants := make([][]byte, len(msgs))
+		for i := range msgs {
+			wants[i] = ref.SM3(msgs[i])
+		}
+		n := 0
+		hk.AtStackDepths(hk.N(700, 3000), 96<<10, 8, func(depth int) {
+			m, w := msgs[depth%len(msgs)], wants[depth%len(msgs)]
+			h := New()
+			h.Write(m[:len(m)/3])
+			h.Write(m[len(m)/3:])
+			got := h.Sum(nil)
+			one := SumSM3(m)
+			if !bytes.Equal(got, w) || !bytes.Equal(one[:], w) {
+				r.Violation("digest-wrong-when-the-stack-grows-inside-the-call", hk.D{"stack_depth_frames": depth, "msglen": len(m), "streaming": hk.Hex(got), "one_shot": hk.Hex(one[:]), "want": hk.Hex(w)})
+			}
+		})
+		n = hk.N(700, 3000)
+		r.EvalN("hist:stack-depth-sweep", n)
+	}
+
 	// (2b) INJECTED mid-message states: every chaining value is reachable in principle, but special ones
 	// (a word equal to 0, all words 0, all ones, equal to the IV) only with probability 2^-32 or less
 	// per block. The monitor sets the hash object's internal state directly (in-package access) to
